@@ -7,12 +7,24 @@ package internal
 // bytes.Buffer and (b) a pipe-like io.WriteCloser that refuses writes after
 // Close (rawRequestSender hands the encoders an *io.PipeWriter), and the bytes
 // are decoded by the independent decoder of c17lib.
+//
+// Second grid, encoder HISTORIES: two or three encodings in a row on one
+// goroutine with nothing in between (one P, no garbage collection inside a
+// history, so that whatever scratch state the encoders keep - a package-level
+// buffer, a sync.Pool - is handed from one encoding to the next every time, not
+// by luck).  The earlier encodings write to a destination that fails at its k-th
+// Write (every k; nothing accepted, or half of the bytes accepted); the last one
+// encodes an unrelated definition into a good buffer and must decode to exactly
+// its own items.
 
 import (
 	"bytes"
 	"encoding/json"
+	"errors"
 	"fmt"
 	"io"
+	"runtime"
+	"runtime/debug"
 	"testing"
 	"time"
 
@@ -23,9 +35,235 @@ import (
 )
 
 type c17Case struct {
-	Kind string          `json:"kind"` // "message" | "stream"
-	Sink string          `json:"sink"` // "buffer" | "closer"
-	Spec json.RawMessage `json:"spec"` // protojson of the definition ("null": nil MessageContents)
+	Kind    string          `json:"kind"`           // "message" | "stream" | "history"
+	Sink    string          `json:"sink,omitempty"` // "buffer" | "closer"
+	Spec    json.RawMessage `json:"spec,omitempty"` // protojson of the definition ("null": nil MessageContents)
+	History []c17Enc        `json:"history,omitempty"`
+}
+
+// c17Enc is one encoding of a history.
+type c17Enc struct {
+	Kind   string          `json:"kind"` // "message" | "stream"
+	Spec   json.RawMessage `json:"spec"`
+	FailAt int             `json:"fail_at,omitempty"` // 0: good destination; k >= 1: the k-th Write of the destination fails (and every later one)
+	Mode   string          `json:"mode,omitempty"`    // "zero": the failing Write accepts nothing; "short": it accepts half of the bytes
+
+	msg *conformancev1.MessageContents
+	str *conformancev1.StreamContents
+}
+
+var c17ErrSink = errors.New("c17: destination failed")
+
+// c17FailSink accepts Writes until the failAt-th, which fails; so does every later one.
+type c17FailSink struct {
+	buf    bytes.Buffer
+	failAt int // 0 = never
+	short  bool
+	calls  int
+	failed bool
+}
+
+func (s *c17FailSink) Write(p []byte) (int, error) {
+	s.calls++
+	if s.failed {
+		return 0, c17ErrSink
+	}
+	if s.failAt > 0 && s.calls >= s.failAt {
+		s.failed = true
+		if s.short {
+			n := len(p) / 2
+			s.buf.Write(p[:n])
+			return n, c17ErrSink
+		}
+		return 0, c17ErrSink
+	}
+	return s.buf.Write(p)
+}
+
+type c17EncResult struct {
+	wire     []byte
+	err      error
+	panicked any
+	calls    int
+}
+
+// c17RunHistory performs the encodings back to back on the calling goroutine.
+func c17RunHistory(h []c17Enc) []c17EncResult {
+	out := make([]c17EncResult, len(h))
+	sinks := make([]*c17FailSink, len(h))
+	for i := range h {
+		sinks[i] = &c17FailSink{failAt: h[i].FailAt, short: h[i].Mode == "short"}
+	}
+	for i := range h {
+		e, sink, res := &h[i], sinks[i], &out[i]
+		func() {
+			defer func() {
+				if p := recover(); p != nil {
+					res.panicked = p
+				}
+			}()
+			if e.Kind == "message" {
+				res.err = WriteRawMessageContents(e.msg, sink)
+			} else {
+				res.err = WriteRawStreamContents(e.str, sink)
+			}
+		}()
+	}
+	for i := range h {
+		out[i].wire, out[i].calls = sinks[i].buf.Bytes(), sinks[i].calls
+	}
+	return out
+}
+
+func c17EncOf(msg *conformancev1.MessageContents, str *conformancev1.StreamContents) c17Enc {
+	if str != nil {
+		return c17Enc{Kind: "stream", Spec: c17lib.JSON(str), str: str}
+	}
+	return c17Enc{Kind: "message", Spec: c17lib.JSON(msg), msg: msg}
+}
+
+func (e *c17Enc) resolve() error {
+	if e.Kind == "message" {
+		e.msg = &conformancev1.MessageContents{}
+		return c17lib.FromJSON(e.Spec, e.msg)
+	}
+	e.str = &conformancev1.StreamContents{}
+	return c17lib.FromJSON(e.Spec, e.str)
+}
+
+type c17HVerdict struct{ key, detail string }
+
+// c17JudgeHistory: every encoding into a good destination must succeed and decode to exactly
+// its own definition, whatever happened to earlier encodings; no encoding may panic.
+func c17JudgeHistory(h []c17Enc, res []c17EncResult) (out []c17HVerdict, outcome string) {
+	outcome = fmt.Sprintf("history%d", len(h))
+	failedBefore := 0
+	for i := range h {
+		e, r := &h[i], &res[i]
+		what := fmt.Sprintf("encoding %d of %d (%s %s)", i+1, len(h), e.Kind, e.Spec)
+		if r.panicked != nil {
+			out = append(out, c17HVerdict{"encoder-history:panic", fmt.Sprintf("%s panicked: %v", what, r.panicked)})
+			outcome += "/panic"
+			continue
+		}
+		if e.FailAt > 0 {
+			failedBefore++
+			switch {
+			case r.calls < e.FailAt:
+				outcome += "/dest-not-reached"
+			case r.err == nil:
+				outcome += "/failure-not-reported"
+			default:
+				outcome += "/failed-" + e.Mode
+			}
+			continue
+		}
+		var prob *c17lib.Problem
+		if e.Kind == "message" {
+			prob = c17lib.CheckUnary(e.msg, r.wire)
+		} else {
+			_, prob = c17lib.CheckStream(e.str, r.wire)
+		}
+		switch {
+		case prob != nil && failedBefore > 0:
+			out = append(out, c17HVerdict{"encoder-history:not-invertible-after-failed-encoding:" + prob.Kind, fmt.Sprintf(
+				"%s into a good buffer, right after %d encoding(s) whose destination failed, was written as %x (err=%v); independent decoding: %s", what, failedBefore, r.wire, r.err, prob.Detail)})
+			outcome += "/mismatch"
+		case prob != nil:
+			out = append(out, c17HVerdict{"encoder-history:not-invertible:" + prob.Kind, fmt.Sprintf("%s was written as %x (err=%v); independent decoding: %s", what, r.wire, r.err, prob.Detail)})
+			outcome += "/mismatch"
+		case r.err != nil:
+			out = append(out, c17HVerdict{"encoder-history:error-on-good-destination", fmt.Sprintf("%s returned %v although its destination accepted every byte", what, r.err)})
+			outcome += "/error"
+		default:
+			outcome += "/ok"
+		}
+	}
+	return out, outcome
+}
+
+// c17Histories enumerates the histories: F = definitions written to a failing
+// destination (every k up to the number of Writes the definition makes on a good
+// destination, both failure modes), G = unrelated definitions written to a good one;
+// length 2: F G; length 3: F F' G and F G G'.
+func c17Histories(thorough bool, visit func(h []c17Enc) bool) {
+	text := func(s string, c conformancev1.Compression) *conformancev1.MessageContents {
+		return &conformancev1.MessageContents{Data: &conformancev1.MessageContents_Text{Text: s}, Compression: c}
+	}
+	bin := func(b []byte, c conformancev1.Compression) *conformancev1.MessageContents {
+		return &conformancev1.MessageContents{Data: &conformancev1.MessageContents_Binary{Binary: b}, Compression: c}
+	}
+	item := func(flags uint32, length int64, p *conformancev1.MessageContents) *conformancev1.StreamContents_StreamItem {
+		it := &conformancev1.StreamContents_StreamItem{Flags: flags, Payload: p}
+		if length >= 0 {
+			it.Length = proto.Uint32(uint32(length))
+		}
+		return it
+	}
+	stream := func(items ...*conformancev1.StreamContents_StreamItem) *conformancev1.StreamContents {
+		return &conformancev1.StreamContents{Items: items}
+	}
+	id, gz := conformancev1.Compression_COMPRESSION_IDENTITY, conformancev1.Compression_COMPRESSION_GZIP
+	un := conformancev1.Compression_COMPRESSION_UNSPECIFIED
+	fails := []c17Enc{
+		c17EncOf(nil, stream(item(0, -1, text("STALE-1:first message of an aborted body", un)))),
+		c17EncOf(nil, stream(item(1, -1, text("STALE-2:compressed item of an aborted body", gz)), item(0, -1, bin([]byte("STALE-2b\x00\xff"), id)))),
+		c17EncOf(nil, stream(item(0, 3, text("STALE-3:explicit", id)), item(2, -1, text("STALE-3b:computed item after an explicit one", un)))),
+		c17EncOf(text("STALE-4:message of an aborted body", un), nil),
+		c17EncOf(text("STALE-5:compressed message of an aborted body", gz), nil),
+	}
+	goods := []c17Enc{
+		c17EncOf(nil, stream(item(0, -1, text("hello", un)))),
+		c17EncOf(nil, stream(item(1, -1, bin([]byte{0x00, 0xff, 0x80, 0x01}, gz)), item(2, 3, text("xyz", id)))),
+		c17EncOf(text("hello", un), nil),
+		c17EncOf(bin([]byte{0x00, 0xff, 0x80, 0x01}, gz), nil),
+		c17EncOf(nil, stream(item(0, -1, text("", un)), item(2, -1, text("{\"goodbye\": \"world\"}", id)))),
+	}
+	if thorough {
+		for _, c := range c17lib.Compressions()[3:] {
+			fails = append(fails,
+				c17EncOf(nil, stream(item(1, -1, text("STALE-6:"+c.String(), c)), item(0, -1, text("STALE-6b", un)))),
+				c17EncOf(text("STALE-7:"+c.String(), c), nil))
+			goods = append(goods,
+				c17EncOf(nil, stream(item(1, -1, text("hello", c)))),
+				c17EncOf(bin([]byte{0x00, 0xff, 0x80, 0x01}, c), nil))
+		}
+	}
+	// every way for the destination of an F definition to fail
+	var failing []c17Enc
+	for _, f := range fails {
+		n := c17RunHistory([]c17Enc{f})[0].calls // Writes on a good destination
+		for k := 1; k <= n; k++ {
+			for _, mode := range []string{"zero", "short"} {
+				v := f
+				v.FailAt, v.Mode = k, mode
+				failing = append(failing, v)
+			}
+		}
+	}
+	for _, f := range failing {
+		for _, g := range goods {
+			if !visit([]c17Enc{f, g}) {
+				return
+			}
+		}
+	}
+	for _, f := range failing {
+		for _, f2 := range failing {
+			for _, g := range goods {
+				if !visit([]c17Enc{f, f2, g}) {
+					return
+				}
+			}
+		}
+		for _, g := range goods {
+			for _, g2 := range goods {
+				if !visit([]c17Enc{f, g, g2}) {
+					return
+				}
+			}
+		}
+	}
 }
 
 // c17CloserSink mimics io.PipeWriter: an io.WriteCloser; writes after Close fail.
@@ -217,7 +455,7 @@ func c17Enumerate(thorough bool, visit func(kind string, msg *conformancev1.Mess
 func TestVerifC17Body(t *testing.T) {
 	r := rep.New("c17-body")
 	defer r.Write()
-	r.Rule = "case = (MessageContents: nil | {unset,text,binary,binary_message payloads} x 7 compression values) or (StreamContents: 0 items | 1 item: flags{0,1,2,128,255} x length{unset,explicit} x {no payload | payload x compression} | 2 items over a reduced item alphabet), each written into a bytes.Buffer and into a pipe-like WriteCloser; every case is a distinct definition x sink; oracle = independent prefix parser + stdlib/3rd-party decompressors recover exactly the specified flags, declared length and payload with no byte left over"
+	r.Rule = "case = (MessageContents: nil | {unset,text,binary,binary_message payloads} x 7 compression values) or (StreamContents: 0 items | 1 item: flags{0,1,2,128,255} x length{unset,explicit} x {no payload | payload x compression} | 2 items over a reduced item alphabet), each written into a bytes.Buffer and into a pipe-like WriteCloser; every case is a distinct definition x sink; oracle = independent prefix parser + stdlib/3rd-party decompressors recover exactly the specified flags, declared length and payload with no byte left over; and encoder HISTORIES of 2 and 3 encodings back to back on one goroutine (one P, no GC inside a history): F G, F F' G, F G G' with F = a stream / message definition written to a destination whose k-th Write fails (every k; nothing accepted | half of the bytes accepted), G = an unrelated definition written to a good buffer, which must decode to exactly its own items"
 
 	if data := rep.ReplayInput(); data != nil {
 		var rj struct {
@@ -227,6 +465,29 @@ func TestVerifC17Body(t *testing.T) {
 			t.Fatalf("bad replay file: %v", err)
 		}
 		c := rj.Replay
+		if c.Kind == "history" {
+			for i := range c.History {
+				if err := c.History[i].resolve(); err != nil {
+					t.Fatal(err)
+				}
+			}
+			defer runtime.GOMAXPROCS(runtime.GOMAXPROCS(1))
+			defer debug.SetGCPercent(debug.SetGCPercent(-1))
+			res := c17RunHistory(c.History)
+			verdicts, outcome := c17JudgeHistory(c.History, res)
+			for i := range res {
+				fmt.Printf("replay: encoding %d %s %s fail_at=%d mode=%s -> wire=%x err=%v panic=%v writes=%d\n", i+1, c.History[i].Kind, c.History[i].Spec, c.History[i].FailAt, c.History[i].Mode, res[i].wire, res[i].err, res[i].panicked, res[i].calls)
+			}
+			fmt.Printf("outcome=%s\n", outcome)
+			r.Eval(1)
+			r.NonTrivial("")
+			r.NonTrivial("")
+			r.Sample(c)
+			for _, v := range verdicts {
+				r.Violate(v.key, v.detail, c)
+			}
+			return
+		}
 		var msg *conformancev1.MessageContents
 		var str *conformancev1.StreamContents
 		if c.Kind == "message" {
@@ -285,6 +546,40 @@ func TestVerifC17Body(t *testing.T) {
 			if key != "" {
 				r.Violate(key, detail, c17Case{Kind: kind, Sink: sink, Spec: spec})
 			}
+		}
+		return true
+	})
+
+	// histories: one P and no garbage collection while a history runs (collections are
+	// forced between histories instead), so that pooled or global scratch state of the
+	// encoders always reaches the next encoding
+	defer runtime.GOMAXPROCS(runtime.GOMAXPROCS(1))
+	defer debug.SetGCPercent(debug.SetGCPercent(-1))
+	var done int
+	c17Histories(rep.Thorough(), func(h []c17Enc) bool {
+		k++
+		if !r.Mine(k) {
+			return true
+		}
+		if !deadline.IsZero() && time.Now().After(deadline) {
+			r.NotExhaustive("budget reached before the enumeration of encoder histories was complete")
+			return false
+		}
+		if done++; done%16 == 0 {
+			runtime.GC()
+		}
+		h = append([]c17Enc(nil), h...)
+		res := c17RunHistory(h)
+		verdicts, outcome := c17JudgeHistory(h, res)
+		r.Eval(1)
+		r.NonTrivial("")
+		r.Outcome(outcome)
+		r.Count(fmt.Sprintf("cases:history-of-%d", len(h)), 1)
+		if k%997 == 1 {
+			r.Sample(c17Case{Kind: "history", History: h})
+		}
+		for _, v := range verdicts {
+			r.Violate(v.key, v.detail, c17Case{Kind: "history", History: h})
 		}
 		return true
 	})
